@@ -186,3 +186,41 @@ def run_c12(tier):
         except OSError:
             pass
     return dict(cases=cases, violations=viol, samples=samples)
+
+
+# ---- C20 -------------------------------------------------------------------------------------
+KINDS = ["plain-clean", "plain-kill", "plain-broken", "plain-timeout", "reusable-clean",
+         "reusable-resized", "reusable-broken-replaced"]
+
+
+def run_c20(tier, nproc=6):
+    import itertools
+    seqs = [[k] for k in KINDS]
+    pairs = list(itertools.permutations(KINDS, 2))
+    if tier == "quick":
+        pairs = [p for i, p in enumerate(pairs) if i % 5 == 0]
+    seqs += [list(p) for p in pairs]
+    with cf.ThreadPoolExecutor(nproc) as tp:
+        rs = list(tp.map(lambda sq: runner.run("life", dict(sequence=sq, watchdog=170), None,
+                                               timeout=190, module="vf.real.treescn"), seqs))
+    viol = []
+    samples = []
+    for sq, r in zip(seqs, rs):
+        tag = "+".join(sq)
+        res = r["result"]
+        if r["status"] != "ok" or not res:
+            viol.append((f"C20:R:scenario-failed:{tag}", f"{r['status']} rc={r['rc']} {r['stdio'][-500:]}", sq))
+            continue
+        a, b = res["once"], res["thrice"]
+        if b["fds"] > a["fds"]:
+            viol.append((f"C20:R:fds-accumulate:{tag}", f"open descriptors {a['fds']} after one pass, "
+                                                        f"{b['fds']} after three", sq))
+        if len(b["threads"]) > len(a["threads"]):
+            viol.append((f"C20:R:threads-accumulate:{tag}", f"{a['threads']} -> {b['threads']}", sq))
+        if len(b["children"]) > len(a["children"]):
+            viol.append((f"C20:R:children-accumulate:{tag}", f"{a['children']} -> {b['children']}", sq))
+        if b["sems"] > a["sems"]:
+            viol.append((f"C20:R:sems-accumulate:{tag}", f"{a['sems']} -> {b['sems']}", sq))
+        if len(samples) < 3:
+            samples.append(dict(sequence=sq, once=a, thrice=b))
+    return dict(cases=len(seqs), violations=viol, samples=samples)
